@@ -56,6 +56,9 @@ CONFIGS = {
     "scalar": dict(tc=None, features=["interop", "scalar-math"], profile="release", rustflags=""),
     "coresimd": dict(tc="nightly", features=["interop", "core-simd"], profile="release", rustflags=""),
     "native": dict(tc=None, features=["interop"], profile="release", rustflags="-C target-feature=+fma,+avx2"),
+    # glam's optional precondition assertions compiled in: an assertion that looks at a padding lane makes the
+    # panic / no-panic outcome depend on it (C08 does not restrict itself to builds without glam-assert)
+    "sse2-assert": dict(tc=None, features=["interop", "glam-assert"], profile="release", rustflags=""),
 }
 
 
@@ -87,7 +90,7 @@ def target_dir(cfg):
     return os.path.join(TARGET_ROOT, repo_tag(), cfg)
 
 
-BACKEND_FEATURE = {"sse2-rel": None, "sse2-dbg": None, "native": None, "scalar": "scalar-math", "coresimd": "core-simd",
+BACKEND_FEATURE = {"sse2-assert": None, "sse2-rel": None, "sse2-dbg": None, "native": None, "scalar": "scalar-math", "coresimd": "core-simd",
                    "miri": None, "miri-scalar": "scalar-math", "miri-coresimd": "core-simd", "asan": None}
 _ops = {}
 _ops_lock = __import__("threading").Lock()
@@ -586,11 +589,11 @@ def selftest_determinism(cfg, seed, cmds, seeds=4):
 
 def check_c08(tier, seed):
     t0 = time.time()
-    names = ["sse2-rel", "sse2-dbg", "coresimd", "native"]
+    names = ["sse2-rel", "sse2-dbg", "coresimd", "native", "sse2-assert"]
     cfgs, skipped = available_configs(names)
     skipped.append(("scalar", "the padding lane does not exist under scalar-math (the property says so)"))
-    runs = {"quick": {"sse2-rel": 300000, "sse2-dbg": 40000, "coresimd": 300000, "native": 150000},
-            "thorough": {"sse2-rel": 6000000, "sse2-dbg": 500000, "coresimd": 6000000, "native": 6000000}}[tier]
+    runs = {"quick": {"sse2-rel": 300000, "sse2-dbg": 40000, "coresimd": 300000, "native": 150000, "sse2-assert": 150000},
+            "thorough": {"sse2-rel": 6000000, "sse2-dbg": 500000, "coresimd": 6000000, "native": 6000000, "sse2-assert": 3000000}}[tier]
     build_all(cfgs)
     det = selftest_determinism("sse2-rel", seed, [["c08", "--runs", 2000]], seeds=4 if tier == "quick" else 32)
     results = []
@@ -773,6 +776,22 @@ def check_c18(tier, seed):
         viols.append({"class": "memory-fault:matrix-conversions", "config": "miri", "detail": e.what,
                       "replay": {"property": "C18", "part": "conv", "seed": seed, "rounds": 3, "violation_class": "memory-fault:matrix-conversions",
                                  "observed": e.what}})
+    # every public function / operator / conversion of the op table executes at least once (two calls: ordinary and mixed
+    # special arguments) under Miri: uninitialised, out-of-bounds or misaligned accesses are reported even when the
+    # result is right and nothing crashes natively
+    once_cfgs = ["miri"] if tier == "quick" else ["miri", "miri-scalar", "miri-coresimd"]
+    for mc in once_cfgs:
+        shards = 2 * NCPU
+        try:
+            r = run_miri(mc, [["c18p", "--once", "--seed", seed, "--shard", i, "--of", shards] for i in range(shards)])
+            monitors[mc + "-every-op-once"] = {"calls": r["evaluations"], "ops": r["distinct_nontrivial"] - shards, "ub_reports": 0,
+                                                "violations": r["violations_total"]}
+            evals += r["evaluations"]
+            for v in r["violations"]:
+                v = dict(v); v["config"] = mc; viols.append(v)
+        except CrashFound as e:
+            monitors[mc + "-every-op-once"] = {"ub_reports": 1, "what": e.what, "case": e.case}
+            viols.append(crash_violation(e, seed, "Heap"))
     conv_types = ["Vec3A", "Vec4", "Quat", "BVec3A", "BVec4A"] + (["Vec3", "DVec4", "DQuat", "IVec3", "U8Vec4"] if tier == "thorough" else [])
     try:
         r = run_miri("miri", ["c17", "--seed", seed, "--histories", 2 if tier == "quick" else 12, "--workers", 1, "--no-fmt", "--no-grid"],
@@ -890,7 +909,7 @@ def main():
     a = ap.parse_args()
     try:
         if a.setup:
-            build_all(available_configs(["sse2-rel", "sse2-dbg", "scalar", "coresimd", "native"])[0])
+            build_all(available_configs(["sse2-rel", "sse2-dbg", "scalar", "coresimd", "native", "sse2-assert"])[0])
             return 0
         if a.replay:
             rep, res = replay_file(a.replay)
